@@ -513,7 +513,7 @@ fn process_violation(check: &str, tier: &str, base: u64, idx: u64, v: &Violation
     // shrink it with one fresh process per candidate (slower, so a smaller budget).
     if !reproduced {
         let full = profiles::generate(check, run_seed(base, check, idx), profiles::tier_from(tier));
-        if let Some(nv) = fresh(&full) {
+        if let Some(nv) = (0..3).find_map(|_| fresh(&full)) {
             reproduced = true;
             if let Some(nv) = nv {
                 fv = nv;
@@ -542,7 +542,10 @@ fn process_violation(check: &str, tier: &str, base: u64, idx: u64, v: &Violation
                 _ => None,
             }
         };
-        if let Some(nv) = hit(prior) {
+        // a violation that depends on which thread wins a lock of the code under test is timing
+        // dependent even in a fresh process: allow a few attempts
+        let first_hit = (0..4).find_map(|_| hit(prior));
+        if let Some(nv) = first_hit {
             reproduced = true;
             fv = nv;
             min = full_scn.clone();
